@@ -324,7 +324,7 @@ class FnExec:
         return r != z3.unsat
 
     def oblige(self, st, name, goal, kind, lineno=None, note="", use=None):
-        if kind == "safety" and self.is_spec:
+        if kind in ("safety", "model") and self.is_spec:
             return          # spec expressions are pure terms; they generate no obligations
         if isinstance(goal, bool):
             goal = z3.BoolVal(goal)
@@ -1223,6 +1223,11 @@ class FnExec:
             yield st1, (vs if isinstance(vs, Raised) else sv_tuple(vs))
 
     def e_Dict(self, node, st):
+        if not node.keys and not self.is_spec:
+            r = self.eng.spec._plug("dict_literal", self, st)
+            if r is not None:
+                yield from r
+                return
         if any(k is None for k in node.keys):
             raise Unsupported("dict unpacking literal")
         for st1, ks in self.ev_list(node.keys, st):
@@ -1406,7 +1411,7 @@ class FnExec:
             if cy is not None and cx is not None and cy >= 0:
                 return sv_int(cx ** cy)
             if cx == 2:
-                self.oblige(st, f"pow-range@{self.cur_line}", z3.And(y >= 0, y <= 72), "safety")
+                self.oblige(st, f"pow-range@{self.cur_line}", z3.And(y >= 0, y <= 72), "model")
                 return sv_int(pow2_table(y))
             raise Unsupported("symbolic **")
         if isinstance(op, ast.FloorDiv):
@@ -1417,13 +1422,13 @@ class FnExec:
             cy = concrete_int(y)
             if cy is not None and cy >= 0:
                 return sv_int(x * (2 ** cy))
-            self.oblige(st, f"shift-range@{self.cur_line}", z3.And(y >= 0, y <= 72), "safety")
+            self.oblige(st, f"shift-range@{self.cur_line}", z3.And(y >= 0, y <= 72), "model")
             return sv_int(shl_table(x, y))
         if isinstance(op, ast.RShift):
             cy = concrete_int(y)
             if cy is not None and cy >= 0:
                 return sv_int(x / (2 ** cy))      # z3 Int '/' with positive divisor == floor division
-            self.oblige(st, f"shift-range@{self.cur_line}", z3.And(y >= 0, y <= 72), "safety")
+            self.oblige(st, f"shift-range@{self.cur_line}", z3.And(y >= 0, y <= 72), "model")
             return sv_int(x / pow2_table(y))
         if isinstance(op, ast.BitAnd):
             return sv_int(self.bitand(x, y, st))
@@ -1489,13 +1494,13 @@ class FnExec:
                         k = self.as_int(sh, st)
                         p = pow2_table(k)
                         # disjoint-bits side obligation: other operand in [0, 2^k)
-                        self.oblige(st, f"or-disjoint@{self.cur_line}", z3.And(rt >= 0, rt < p, k >= 0, k <= 72), "safety")
+                        self.oblige(st, f"or-disjoint@{self.cur_line}", z3.And(rt >= 0, rt < p, k >= 0, k <= 72), "model")
                         return lt + rt
         # c | e with c = 2^k and 0 <= e < 2^k
         if cx is None and cy is not None:
             x, y, cx, cy = y, x, cy, cx
         if cx is not None and self._pow2(cx):
-            self.oblige(st, f"or-disjoint@{self.cur_line}", z3.And(y >= 0, y < cx), "safety")
+            self.oblige(st, f"or-disjoint@{self.cur_line}", z3.And(y >= 0, y < cx), "model")
             return cx + y
         raise Unsupported("| outside the disjoint-bits patterns")
 
@@ -1514,7 +1519,7 @@ class FnExec:
                 return z3.If((x / cy) % 2 == 1, x - cy, x + cy)
             raise Unsupported("^ with an unsupported constant")
         # symbolic mask: must be 0 or -1
-        self.oblige(st, f"xor-mask@{self.cur_line}", z3.Or(y == 0, y == -1), "safety")
+        self.oblige(st, f"xor-mask@{self.cur_line}", z3.Or(y == 0, y == -1), "model")
         return z3.If(y == 0, x, -x - 1)
 
     def e_Compare(self, node, st):
@@ -1582,6 +1587,9 @@ class FnExec:
             return a.t == b.t
         if {ka, kb} <= {"int", "bool", "bytes", "str", "tuple", "const"}:
             return z3.BoolVal(False)
+        r = self.eng.spec._plug("equal_hook", self, a, b, st)
+        if r is not None:
+            return r
         raise Unsupported(f"== between {ka} and {kb}")
 
     def identical(self, a, b, st):
@@ -1845,7 +1853,26 @@ class FnExec:
             return
         c = self.eng.contracts.get(qualname)
         if c is None:
-            raise Unsupported(f"call to {qualname} which has no contract")
+            # a repo helper without a contract (e.g. introduced by a refactoring): execute its body in place
+            # (sound: it is the real code), unless it has loops or the inlining is nested too deeply
+            mi0, q0, fn0 = front.get_function(qualname)
+            depth = getattr(self, "_inline_depth", 0)
+            if front.loops_in_order(fn0) or depth >= 3:
+                raise Unsupported(f"call to {qualname} which has no contract")
+            c = FN(qualname, inline=True)
+            self._inline_depth = depth + 1
+            try:
+                bound0 = self.bind_args(fn0, ([recv] if recv is not None else []) + pos, kw)
+                for k_, v_ in list(bound0.items()):
+                    if isinstance(v_, tuple) and v_[0] == "default":
+                        subd = FnExec.__new__(FnExec)
+                        subd.__dict__.update(self.__dict__)
+                        subd.mi = mi0
+                        bound0[k_] = subd.ev1(v_[1], State())
+                yield from self.inline_call(c, mi0, q0, fn0, bound0, st)
+            finally:
+                self._inline_depth = depth
+            return
         mi, q, fn_node = front.get_function(qualname)
         bound = self.bind_args(fn_node, ([recv] if recv is not None else []) + pos, kw)
         for k, v in list(bound.items()):
